@@ -68,3 +68,44 @@ def check_no_static_influence(chk, rule, m, fn, consequence):
            "a value read from the mutable static object %s (%s) %s at %s: %s" % (bad[0][0], bad[0][1].loc, bad[2], bad[1].loc, consequence),
            bad[1].loc if bad else fn.loc, fn.name)
     return bad is None
+
+
+
+def write_only_member(m, struct_names, field):
+    """True if the member `field` of the named struct never influences anything in unit m but itself: every value loaded from it
+    flows (through arithmetic and conversions) only into stores back to the same member, or into the return value of a function
+    that stores nothing (its accessor).  Such a member is a statistic: the behaviour the rules decide cannot depend on it."""
+    from .. import flow
+    ARITH = ("add", "sub", "mul", "and", "or", "xor", "shl", "lshr", "ashr", "zext", "sext", "trunc", "phi", "select", "freeze")
+    for fn in m.defined_functions():
+        acc = flow.accesses(fn, m)
+        mine = [a for a in acc if a.struct in struct_names and a.field == field]
+        if not mine:
+            continue
+        has_store = any(a.writes for a in acc)
+        for a in mine:
+            if a.kind != "load":
+                if a.kind != "store":
+                    return False        # RMW, block copy: not modelled as a statistic
+                continue
+            seen, work = set(), [a.inst.name]
+            while work:
+                v = work.pop()
+                if v in seen:
+                    continue
+                seen.add(v)
+                for u in fn.users(v):
+                    if u.op in ARITH and u.name:
+                        if u.op == "select" and u.ops[0].k == "inst" and u.ops[0].name == v:
+                            return False        # decides something
+                        work.append(u.name)
+                    elif u.op == "store" and u.ops[0].k == "inst" and u.ops[0].name == v:
+                        tgt = [b for b in mine if b.inst is u]
+                        if not tgt:
+                            return False
+                    elif u.op == "ret":
+                        if has_store:
+                            return False
+                    else:
+                        return False
+    return True
